@@ -6,6 +6,7 @@ mod c05m7;
 mod c05x;
 mod c06;
 mod c06msg;
+mod c06sim;
 mod c07;
 mod c08;
 mod boundary;
